@@ -82,6 +82,11 @@ func c03Cases() []c03Case {
 	for policy := 0; policy <= 4; policy++ {
 		out = append(out, c03Case{12, "s", "cert", "ecdsa", false, false, policy, "resume-after-unfinished-key-exchange"})
 	}
+	for _, honest := range []string{"c", "s"} {
+		// the application's VerifyConnection callback on a resumed DTLS 1.2 connection
+		out = append(out, c03Case{12, honest, "cert", "ecdsa", honest == "c", true, 0, "resumed:verify-connection-rejects"})
+		out = append(out, c03Case{12, honest, "psk", "", false, true, 0, "resumed:verify-connection-rejects"})
+	}
 	for _, ver := range []int{12, 13} {
 		// the client names the server by its IP address
 		out = append(out, c03Case{ver, "c", "cert", "ecdsa", true, false, 0, "ip-name:none"})
@@ -243,6 +248,11 @@ func c03Run(rc *RunCtx, params any) {
 	s := rc.S
 	rc.R.Class = fmt.Sprintf("v%d/%s/%s/%s", p.Ver, p.Honest, p.Auth, p.Dev)
 	rc.R.NonTriv = p.Dev != "none"
+	if p.Dev == "resumed:verify-connection-rejects" {
+		c03ResumeCallback(rc, p)
+
+		return
+	}
 	if p.Dev == "expires-between-connections" {
 		c03Expiry(rc, p)
 
@@ -753,6 +763,80 @@ func c03Expiry(rc *RunCtx, p *C03Params) {
 		rc.Violate(fmt.Sprintf("established-without-credential:v%d:%s:%s", p.Ver, p.Honest, p.Dev), "a certificate that was valid during a first connection and expired five virtual minutes before the second one was accepted again by the honest %s (policy %d)", map[string]string{"c": "client", "s": "server"}[p.Honest], p.Policy)
 	} else {
 		s.Probe("must-fail:" + p.Dev)
+	}
+	p2.Teardown()
+}
+
+// c03ResumeCallback: a first connection fills both session stores; on the second connection the
+// honest side has installed a VerifyConnection callback that refuses every peer (an application
+// that has withdrawn its authorisation since). Full or abbreviated, the honest side must not
+// report success: the callback is policy, and it is asked on every connection.
+func c03ResumeCallback(rc *RunCtx, p *C03Params) {
+	s := rc.S
+	var cspec, sspec EpSpec
+	if p.Auth == "psk" {
+		cspec, sspec = pskPair(suitePSKGCM)
+	} else {
+		cspec, sspec = certPair12(suiteECDSAGCM, "srv-ecdsa")
+	}
+	rc.Note("proto", "dtls12")
+	cspec.Store, sspec.Store = "cstore", "sstore"
+	stores := map[string]dtls.SessionStore{"cstore": NewSimStore(s, "cstore", 0), "sstore": NewSimStore(s, "sstore", 0)}
+	n1 := NewSimNet(s, NetRules{})
+	p1, err := NewPairNamed(s, n1, cspec, sspec, &Env{Stores: stores}, "c1", "s1")
+	if err != nil {
+		rc.Violate("harness", "config: %v", err)
+
+		return
+	}
+	ok1 := p1.Establish(time.Minute)
+	p1.Teardown()
+	if !ok1 {
+		rc.Note("control-failed", "")
+
+		return
+	}
+	s.Probe("control-ok")
+	asked := 0
+	env2 := &Env{Stores: stores, Extra: map[string][]dtls.Option{}}
+	name := map[string]string{"c": "c2", "s": "s2"}[p.Honest]
+	env2.Extra[name] = append(env2.Extra[name], dtls.WithVerifyConnection(func(*dtls.State) error {
+		asked++
+
+		return errors.New("verif: the application no longer authorises this peer")
+	}))
+	n2 := NewSimNet(s, p.Rules)
+	p2, err := NewPairNamed(s, n2, cspec, sspec, env2, "c2", "s2")
+	if err != nil {
+		rc.Violate("harness", "config: %v", err)
+
+		return
+	}
+	p2.StartHandshakes(30 * time.Second)
+	s.Run(p2.BothDone, time.Minute)
+	abbreviated := true
+	for _, em := range n2.Emits {
+		if recs, perr := ParseDatagram(em.Data, 0); perr == nil {
+			for _, r := range recs {
+				for _, f := range r.Hs {
+					if f.Type == HTServerHelloDone {
+						abbreviated = false
+					}
+				}
+			}
+		}
+	}
+	hs := p2.CHs
+	if p.Honest == "s" {
+		hs = p2.SHs
+	}
+	if hs.Done && hs.Err == nil {
+		rc.Violate(fmt.Sprintf("established-without-credential:v12:%s:%s", p.Honest, p.Dev), "the honest %s reports a successful handshake (abbreviated=%v) although its VerifyConnection callback refuses every peer; the callback was asked %d times on this connection", map[string]string{"c": "client", "s": "server"}[p.Honest], abbreviated, asked)
+	} else {
+		s.Probe("must-fail:" + p.Dev)
+	}
+	if abbreviated {
+		s.Probe("second-connection-was-abbreviated")
 	}
 	p2.Teardown()
 }
